@@ -174,6 +174,7 @@ func mergeFields(old map[string]int, fs []Field) map[string]int {
 
 type generator struct {
 	rt     *rapid.T
+	edge   bool           // discs at the antimeridian / near a pole: positions by great-circle distance, points only
 	excl   map[string]int // shapes left out because they trigger a known finding
 	cs     *Case
 	cur    []FenceSpec // definitions currently in force (re-definitions change them)
@@ -183,7 +184,7 @@ type generator struct {
 }
 
 func (g *generator) valid(key int, lat, lon float64, old *gobj) bool {
-	if math.Abs(lat) > 84 || math.Abs(lon) > 179 {
+	if (!g.edge && (math.Abs(lat) > 84 || math.Abs(lon) > 179)) || math.Abs(lat) > 89.95 {
 		return false
 	}
 	for i, f := range g.cs.Fences {
@@ -207,6 +208,14 @@ func (g *generator) valid(key int, lat, lon float64, old *gobj) bool {
 
 // candidate computes a position of the given class relative to frame fr.
 func candidate(fr frame, class string, th, rho, k, j1, j2 float64, old *gobj) (lat, lon float64) {
+	if fr.hav {
+		// a disc anywhere on the globe: distance rho*r at bearing th along a great circle
+		if class == "cross" {
+			rho = 1.2 + 2*k // no path semantics there: simply somewhere outside
+		}
+		lat, lon = destination(fr.cy, fr.cx, math.Min(rho, 0.85+math.Max(0, rho-0.9))*fr.r, th*180/math.Pi)
+		return round7(lat), round7(lon)
+	}
 	var u, v float64
 	if class == "cross" && old != nil {
 		u0, v0 := fr.norm(old.lat, old.lon)
@@ -391,8 +400,33 @@ func genCase(rt *rapid.T, detectIdx int, p genParams) Case {
 	lat := unif(rt, "main-lat", -50, 50)
 	lon := unif(rt, "main-lon", -150, 150)
 	hy := math.Exp(unif(rt, "main-size", math.Log(0.003), math.Log(0.25)))
+	// DETECT lists without outside and cross find the hook only through the
+	// rectangle index: a third of those cases put a disc on the antimeridian,
+	// near a pole or at high latitude (regression fence-circle-candidate-box)
+	if detectIdx != 0 && detectIdx&(2|16) == 0 && !p.long && pct(rt, "edge") < 35 {
+		g.edge = true
+		kind = pick(rt, "edge-kind", []string{"point", "circle"})
+		switch pct(rt, "edge-where") % 3 {
+		case 0: // on the antimeridian
+			lat = unif(rt, "edge-lat", -70, 70)
+			lon = pick(rt, "edge-side", []float64{180, -180}) - unif(rt, "edge-off", -0.3, 0.3)
+			if lon > 180 {
+				lon -= 360
+			} else if lon < -180 {
+				lon += 360
+			}
+		case 1: // near a pole
+			lat = pick(rt, "edge-pole", []float64{1, -1}) * unif(rt, "edge-plat", 86, 89.7)
+			lon = unif(rt, "edge-plon", -180, 180)
+		default: // high latitude
+			lat = pick(rt, "edge-pole", []float64{1, -1}) * unif(rt, "edge-hlat", 65, 84)
+			lon = unif(rt, "edge-hlon", -179, 179)
+		}
+		hy = unif(rt, "edge-r", 20000, 150000) / mPerDeg
+	}
 	main := FenceSpec{Key: 0, Cmd: cmdFor(rt, "main-cmd", kind), Area: drawArea(rt, "main", kind, lat, lon, hy),
 		Detect: detectSubset(detectIdx), Obs: "all3"}
+	main.Area.Hav = g.edge
 	if !p.long {
 		if pct(rt, "main-commands") < 60 {
 			main.Commands = drawSubset(rt, "main-accept", []string{"set", "fset", "del", "drop"})
@@ -441,6 +475,10 @@ func genCase(rt *rapid.T, detectIdx int, p genParams) Case {
 			clat, clon = mfr.denorm(u/20, v/20)
 		}
 		k := pick(rt, lb+"-kind", areaKinds)
+		if g.edge {
+			k = pick(rt, lb+"-ekind", []string{"point", "circle"})
+			clat, clon = destination(mfr.cy, mfr.cx, unif(rt, lb+"-ed", 0, 2.5)*mfr.r, unif(rt, lb+"-eb", 0, 360))
+		}
 		size := mfr.hy * math.Exp(unif(rt, lb+"-size", math.Log(0.3), math.Log(3)))
 		f.Cmd = cmdFor(rt, lb+"-cmd", k)
 		f.Area = drawArea(rt, lb, k, clat, clon, size)
